@@ -662,7 +662,20 @@ pub fn c09(ctx: &mut Ctx) {
         for p in &prefixes {
             ctx.case(&format!("avp-k{}{}-{i}-prefix{}", v.kind, if v.hidden { "h" } else { "" }, p.len()), &|| format!("encode-avps {} {}", hexz(p), avp_desc(v)), || {
                 let a = rf::build(v).expect("representable");
-                let alone = enc_avp(&a);
+                let alone = match catch(|| enc_avp(&a)) {
+                    Ok(x) => x,
+                    Err(pan) => {
+                        // encoding alone panics: position independence then demands the same after any prefix
+                        if p.is_empty() {
+                            return Ok(()); // a refusal as such is C06/C07's, not C09's
+                        }
+                        let after = catch(|| { let mut w = writer_with(p); a.write(&mut w); w.data });
+                        return match after {
+                            Err(_) => Ok(()),
+                            Ok(d) => fail(format!("the same refusal as into an empty writer (PANIC: {pan})"), format!("returns after a {}-octet prefix: {}", p.len(), hex_short(&d, 60))),
+                        };
+                    }
+                };
                 let mut w = writer_with(p);
                 a.write(&mut w);
                 let want: Vec<u8> = [p.clone(), alone.clone()].concat();
